@@ -9,7 +9,7 @@ sid, prop, wt, md = sys.argv[1:5]
 suite = '--no-suite' not in sys.argv
 env = dict(os.environ, GOFLAGS='-mod=mod', GOPROXY='off')
 def sh(cmd, cwd, timeout=1800):
-    r = subprocess.run(cmd, shell=True, cwd=cwd, env=env, capture_output=True, text=True, timeout=timeout)
+    r = subprocess.run(cmd, shell=True, cwd=cwd, env=env, capture_output=True, text=True, errors="replace", timeout=timeout)
     return r.returncode, (r.stdout + r.stderr)
 readme = open(os.path.join(md, 'README.md')).read()
 demos = [f for f in os.listdir(md) if f.endswith('_test.go')]
@@ -61,7 +61,7 @@ if o.strip():
 rca, outa = sh(f'git apply {md}/patch.diff', '/repo')
 try:
     ev = f'/tmp/seeded-ev-{sid}'
-    r = subprocess.run(['/verif/bin/yv', 'check', '-p', 'all', '-evidence', ev], capture_output=True, text=True)
+    r = subprocess.run(['/verif/bin/yv', 'check', '-p', 'all', '-evidence', ev], capture_output=True, text=True, errors="replace")
     lines = r.stdout.splitlines()
 finally:
     sh('git checkout -- .', '/repo')
